@@ -1359,12 +1359,17 @@ def run(ck):
     ck.notes = []
     proof_ok = ck.prove(THEOREMS)
     unproved = []
+    import os
+    only = os.environ.get("C07_ONLY", "")        # development aid: run some parts only (never set by ./check users)
     t0 = time.time()
-    run_depsort(ck, unproved)
+    if not only or "depsort" in only:
+        run_depsort(ck, unproved)
     t1 = time.time()
-    run_qualify(ck, unproved)
+    if not only or "qualify" in only:
+        run_qualify(ck, unproved)
     t2 = time.time()
-    run_render(ck, unproved)
+    if not only or "render" in only:
+        run_render(ck, unproved)
     t3 = time.time()
     ck.extra["wall_by_part_s"] = {"depsort": round(t1 - t0, 1), "qualify": round(t2 - t1, 1), "render": round(t3 - t2, 1)}
     ck.rule = ""
